@@ -31,7 +31,10 @@ def run_schedule(thunks, schedule, granularity='call', prefix=None, timeout=60.0
     pending = list(schedule)
     want_line = granularity == 'line'
     # granularity 'hot': call events everywhere, line events too inside the files named by line_files (modules that own state shared between parses)
-    hot = tuple(line_files) if granularity == 'hot' else ()
+    hot = tuple(line_files) if granularity in ('hot', 'only', 'onlywide') else ()
+    # granularity 'only': call and line events inside the files named by line_files and nowhere else (a long computation — a whole grammar
+    # compilation — scheduled at the lines that touch process-wide state)
+    only = granularity in ('only', 'onlywide')
     state = {'dead': False}
 
     def handoff(me):
@@ -57,6 +60,8 @@ def run_schedule(thunks, schedule, granularity='call', prefix=None, timeout=60.0
 
         def tracer(frame, event, arg):
             if event != 'call' or not frame.f_code.co_filename.startswith(prefix):
+                return None
+            if only and not frame.f_code.co_filename.endswith(hot):
                 return None
             tick()
             if want_line or (hot and frame.f_code.co_filename.endswith(hot)):
